@@ -538,7 +538,10 @@ def nostd_user_builds(part):
             if p.returncode != 0:
                 ok = False
                 diags = [d for d in fw.parse_diags(p.stdout) if d["level"] == "error"]
-                first = diags[0] if diags else {"message": p.stderr[-300:]}
+                if not diags:
+                    part.inconclusive.append("%s: cargo exited with %s without a compiler diagnostic" % (name, p.returncode))
+                    continue
+                first = diags[0]
                 sig = {"kind": "build", "config": name, "backend": "dec" if dec else "f64", "class": {"kind": "build", "config": name}}
                 part.violation(sig, "C19 build: %s: a #![no_std] crate that defines quantities with the macro does not build: %s (%s:%s)" % (
                     name, (first.get("message") or "")[:300], first.get("file"), first.get("line")),
@@ -596,6 +599,9 @@ def run_config(args):
         return cfg, {"status": "inconclusive", "reason": str(e)}
     if p.returncode != 0:
         diags = [d for d in fw.parse_diags(p.stdout) if d["level"] == "error"]
+        if not diags:
+            # no compiler error was reported: cargo was killed or failed for a reason outside the code under test
+            return cfg, {"status": "inconclusive", "reason": "cargo exited with %s without a compiler diagnostic: %s" % (p.returncode, p.stderr[-200:])}
         return cfg, {"status": "build_failed", "diags": [{k: d[k] for k in ("code", "message", "file", "line")} for d in diags[:6]], "stderr": p.stderr[-1500:]}
     exe = os.path.join(tgt, "debug", "featprobe")
     try:
